@@ -24,15 +24,8 @@ Proof.
 Qed.
 
 (* ---- LangSys tables ---- *)
-Definition item := (list N * langsys)%type.
-Definition items_of (e : script_entry) : list item :=
-  (match e_def e with Some f => [([], f)] | None => [] end) ++ e_langs e.
-
 Fixpoint loffs (l : list item) (pos : N) : list N :=
   match l with [] => [] | x :: r => pos :: loffs r (pos + ls_size (snd x)) end.
-
-Fixpoint work (l : list item) : N :=
-  match l with [] => 0 | x :: r => 1 + lenN (snd (snd x)) + work r end.
 
 Lemma ls_bytes_lenN f : lenN (ls_bytes f) = ls_size f.
 Proof. unfold ls_bytes, ls_size. lens. lia. Qed.
@@ -172,7 +165,259 @@ Proof.
   intros H. destruct (script_table_shape e tab H) as (lrecs & -> & -> & _ & Ht).
   lens. rewrite concat_recs_lenN.
   - unfold script_size, items_of. rewrite lss_size_flat, !map_length_lenN.
-    destruct (e_def e); cbn [flat_map def_size]; lens; rewrite ?ls_bytes_lenN; lia.
+    destruct (e_def e); cbn [app flat_map def_size snd]; lens; rewrite ?ls_bytes_lenN; lia.
   - now rewrite loffs_length, map_length.
   - apply Forall_map. exact Ht.
+Qed.
+
+(* ---- one script table ---- *)
+Lemma lss_size_ge l : 6 * lenN l <= lss_size l.
+Proof.
+  induction l as [|x r IH]; cbn [lss_size]; [cbn; lia|]. rewrite lenN_cons. unfold ls_size. lia.
+Qed.
+
+Lemma map_snd_combine {A B} (a : list A) (b : list B) : length b = length a -> map snd (combine a b) = b.
+Proof.
+  revert b; induction a as [|x a IH]; intros b H; destruct b as [|y b]; try discriminate; [reflexivity|].
+  cbn [combine map snd]. rewrite IH by (cbn [length] in H; lia). reflexivity.
+Qed.
+
+Lemma rd_script_table_ok conv_ok e tab A tail P budget :
+  script_table e = Ok tab ->
+  Forall (fun x : item => tag_ok (fst x)) (e_langs e) ->
+  Forall (item_ok (e_tag e) conv_ok) (items_of e) ->
+  lenN A = P -> 8 <= lenN A -> work (items_of e) <= budget ->
+  rd_script_table conv_ok (A ++ tab ++ tail) (e_tag e) P budget =
+  Ok (entry_assignments e, budget - work (items_of e)).
+Proof.
+  intros Htab Htags Hitems HA HA8 Hb.
+  pose proof (script_table_lenN e tab Htab) as Hlen.
+  destruct (script_table_shape e tab Htab) as (lrecs & -> & Hlrecs & Hoffs & Hl4).
+  set (nl := lenN (e_langs e)) in *. set (pos0 := 4 + 6 * nl) in *.
+  set (body := flat_map (fun x : item => ls_bytes (snd x)) (items_of e)) in *.
+  set (defOff := match e_def e with Some _ => pos0 | None => 0 end) in *.
+  assert (Hpos0 : pos0 <= 65535).
+  { unfold pos0, nl. destruct (e_langs e) as [|x r] eqn:El; [cbn; lia|].
+    cbn [loffs] in Hoffs. apply Forall_cons_iff in Hoffs. destruct Hoffs as [H0 _].
+    fold nl. fold pos0. lia. }
+  unfold rd_script_table. rewrite <- HA. unfold lenN at 1. rewrite seek_app.
+  rewrite <- !app_assoc. cbn [be16 app]. rewrite !w16_be16_eq by (unfold defOff; destruct (e_def e); lia).
+  replace ((4 + 6 * nl) mod 65536) with pos0 by (unfold pos0 in *; lia).
+  replace ((0 <? defOff) && (defOff <? pos0)) with false by (unfold defOff; destruct (e_def e); lia).
+  (* the size check *)
+  assert (Hsize : 8 + nl * 12 <= lenN (A ++ (defOff / 256) mod 256 :: defOff mod 256 :: (nl / 256) mod 256 :: nl mod 256 :: lrecs ++ body ++ tail)).
+  { rewrite lenN_app, !lenN_cons, !lenN_app. rewrite !lenN_app, !lenN_be16 in Hlen.
+    pose proof (lss_size_ge (e_langs e)). unfold script_size in Hlen. fold nl in Hlen, H. lia. }
+  match goal with |- context [lenN ?d <? 8 + nl * 12] => replace (lenN d <? 8 + nl * 12) with false by lia end.
+  (* the language records *)
+  rewrite Hlrecs. unfold nl at 1, lenN at 1. rewrite Nnat.Nat2N.id.
+  rewrite <- (map_length fst (e_langs e)).
+  rewrite rd_tagged_ok.
+  2:{ now rewrite loffs_length, !map_length. }
+  2:{ apply Forall_map. exact Htags. }
+  2:{ eapply Forall_impl; [|exact Hoffs]. cbv beta. intros; lia. }
+  cbn [obind fst].
+  (* default + languages = the items *)
+  assert (Hrecs : (if defOff =? 0 then [] else [([], defOff)]) ++
+                  combine (map fst (e_langs e)) (loffs (e_langs e) (pos0 + def_size (e_def e))) =
+                  combine (map fst (items_of e)) (loffs (items_of e) pos0)).
+  { unfold defOff, items_of. destruct (e_def e) as [f|]; cbn [def_size app map loffs combine fst snd].
+    - replace (pos0 =? 0) with false by (unfold pos0; lia). reflexivity.
+    - now rewrite N.add_0_r. }
+  rewrite Hrecs.
+  rewrite (sort_off_sorted _ 0).
+  2:{ rewrite map_snd_combine by (now rewrite loffs_length, map_length). apply loffs_inc. unfold pos0. lia. }
+
+  set (A' := A ++ be16 defOff ++ be16 nl ++ lrecs).
+  assert (HD : A ++ (defOff / 256) mod 256 :: defOff mod 256 :: (nl / 256) mod 256 :: nl mod 256 ::
+               concat (map (fun p => fst p ++ be16 (snd p))
+                 (combine (map fst (e_langs e)) (loffs (e_langs e) (pos0 + def_size (e_def e))))) ++ body ++ tail
+               = A' ++ body ++ tail).
+  { unfold A'. rewrite Hlrecs, <- !app_assoc. reflexivity. }
+  rewrite HD. unfold body.
+  rewrite (rd_langsyss_ok conv_ok (e_tag e) tail (lenN A) (items_of e) A' pos0 budget); try assumption.
+  - unfold entry_assignments, items_of. destruct (e_def e); cbn [map app fst snd]; reflexivity.
+  - unfold A'. lens. rewrite Hlrecs, concat_recs_lenN.
+    + rewrite map_length_lenN. fold nl. unfold pos0. lia.
+    + now rewrite loffs_length, map_length.
+    + apply Forall_map. exact Hl4.
+Qed.
+
+(* ---- the list of script tables ---- *)
+Fixpoint soffs (es : list script_entry) (off : N) : list N :=
+  match es with [] => [] | e :: r => off :: soffs r (off + script_size e) end.
+
+Lemma script_records_ok es : forall off recs,
+  script_records es off = Ok recs ->
+  recs = concat (map (fun p => fst p ++ be16 (snd p)) (combine (map (fun e => first4 (e_tag e)) es) (soffs es off))) /\
+  Forall (fun o => o <= 65535) (soffs es off) /\ Forall (fun e => too_many e = false) es.
+Proof.
+  induction es as [|e r IH]; intros off recs; cbn [script_records].
+  - intros H. apply ok_inj in H. subst recs. repeat split; constructor.
+  - destruct (65535 <? off) eqn:E1; [discriminate|].
+    destruct (too_many e) eqn:E2; [discriminate|].
+    destruct (script_records r (off + script_size e)) as [tl| | |] eqn:Et; cbn [obind]; try discriminate.
+    intros H. apply ok_inj in H. subst recs.
+    destruct (IH _ _ Et) as (-> & A & B). cbn [map soffs combine concat fst snd].
+    repeat split; [now rewrite <- app_assoc|constructor; [lia|exact A]|constructor; assumption].
+Qed.
+
+Lemma soffs_length es : forall off, length (soffs es off) = length es.
+Proof. induction es as [|e r IH]; intros off; cbn [soffs length]; [reflexivity|]. now rewrite IH. Qed.
+
+Lemma soffs_inc es : forall off prev, prev < off -> offs_inc prev (soffs es off).
+Proof.
+  induction es as [|e r IH]; intros off prev H; cbn [soffs offs_inc]; [exact I|].
+  split; [exact H|]. apply IH. unfold script_size. lia.
+Qed.
+
+Lemma soffs_ge es : forall off, Forall (fun o => off <= o) (soffs es off).
+Proof.
+  induction es as [|e r IH]; intros off; cbn [soffs]; constructor; [lia|].
+  eapply Forall_impl; [|apply IH]. cbv beta. intros; lia.
+Qed.
+
+Lemma rd_script_tables_ok conv_ok pos tail es : forall tabs A off budget,
+  script_tables es = Ok tabs -> Forall (entry_rd_ok conv_ok) es ->
+  lenN A = pos + off -> 8 <= lenN A -> total_work es <= budget ->
+  rd_script_tables conv_ok (A ++ tabs ++ tail) pos (combine (map e_tag es) (soffs es off)) budget =
+  Ok (flat_map entry_assignments es).
+Proof.
+  induction es as [|e r IH]; intros tabs A off budget Ht Hok HA HA8 Hb; cbn [script_tables] in Ht.
+  - reflexivity.
+  - destruct (script_table e) as [tab| | |] eqn:Et; cbn [obind] in Ht; try discriminate.
+    destruct (script_tables r) as [tl| | |] eqn:Er; cbn [obind] in Ht; try discriminate.
+    apply ok_inj in Ht. subst tabs.
+    apply Forall_cons_iff in Hok. destruct Hok as [(H1 & H2 & H3) Hok].
+    cbn [total_work] in Hb.
+    cbn [map soffs combine rd_script_tables flat_map]. rewrite <- app_assoc.
+    rewrite (rd_script_table_ok conv_ok e tab A (tl ++ tail) (pos + off) budget Et H2 H3 HA HA8 ltac:(lia)).
+    cbn [obind fst snd].
+    specialize (IH tl (A ++ tab) (off + script_size e) (budget - work (items_of e)) eq_refl Hok).
+    rewrite <- app_assoc in IH. rewrite IH; [reflexivity| | |lia].
+    + rewrite lenN_app, HA, (script_table_lenN e tab Et). lia.
+    + rewrite lenN_app. lia.
+Qed.
+
+Lemma first4_ok t : tag_ok t -> first4 t = t.
+Proof. intros [H _]. unfold first4. rewrite <- H. apply firstn_all. Qed.
+
+Lemma sl_roundtrip conv_ok es b pre post :
+  Forall (entry_rd_ok conv_ok) es -> total_work es <= maxWork ->
+  M_sl_encode es = Ok b ->
+  M_sl_read conv_ok (pre ++ b ++ post) (lenN pre) = Ok (flat_map entry_assignments es).
+Proof.
+  intros Hok Hwork.
+  destruct es as [|e0 r0].
+  { unfold M_sl_encode. cbn [script_records script_tables obind lenN length].
+    intros H. apply ok_inj in H. subst b. unfold M_sl_read. unfold lenN at 1. rewrite seek_app.
+    unfold lenN. cbn [length]. change (N.of_nat 0) with 0. change (be16 0) with [0; 0]. cbn [app].
+    change (w16 0 0) with 0. rewrite N.mul_0_r.
+    rewrite (proj2 (N.ltb_ge _ 0)) by lia. reflexivity. }
+  assert (Hn1 : 1 <= lenN (e0 :: r0)) by (rewrite lenN_cons; lia).
+  set (es := e0 :: r0) in *.
+  unfold M_sl_encode.
+  set (n := lenN es) in *.
+  destruct (script_records es (2 + 6 * n)) as [recs| | |] eqn:Er; cbn [obind]; try discriminate.
+  destruct (script_tables es) as [tabs| | |] eqn:Et; cbn [obind]; try discriminate.
+  intros H. apply ok_inj in H. subst b.
+  destruct (script_records_ok _ _ _ Er) as (Hrecs & Hoffs & _).
+  assert (Htags : map (fun e => first4 (e_tag e)) es = map e_tag es).
+  { apply map_ext_in. intros e He. apply first4_ok. apply (proj1 (Forall_forall _ _) Hok e He). }
+  rewrite Htags in Hrecs.
+  assert (Hn : 2 + 6 * n <= 65535 \/ es = []).
+  { destruct es as [|e r]; [right; reflexivity|left]. cbn [soffs] in Hoffs.
+    apply Forall_cons_iff in Hoffs. destruct Hoffs as [H0 _]. exact H0. }
+  assert (Hn' : n < 65536) by (destruct Hn as [Hn|Hn]; [lia|unfold n; rewrite Hn; cbn; lia]).
+  assert (Hrl : lenN recs = 6 * n).
+  { rewrite Hrecs, concat_recs_lenN.
+    - now rewrite map_length_lenN.
+    - now rewrite soffs_length, map_length.
+    - apply Forall_map. apply Forall_forall. intros e He.
+      apply (proj1 (Forall_forall _ _) Hok e He). }
+  unfold M_sl_read. unfold lenN at 1. rewrite seek_app. rewrite <- !app_assoc. cbn [be16 app].
+  rewrite w16_be16_eq by exact Hn'.
+  match goal with |- context [lenN ?d <? 6 * n] =>
+    replace (lenN d <? 6 * n) with false
+      by (rewrite lenN_app, !lenN_cons, !lenN_app, Hrl; lia) end.
+  rewrite Hrecs. unfold n at 1, lenN at 1. rewrite Nnat.Nat2N.id.
+  rewrite <- (map_length e_tag es).
+  rewrite rd_tagged_ok.
+  2:{ now rewrite soffs_length, map_length. }
+  2:{ apply Forall_map. apply Forall_forall. intros e He. apply (proj1 (Forall_forall _ _) Hok e He). }
+  2:{ eapply Forall_impl; [|exact Hoffs]. cbv beta. intros; lia. }
+  cbn [obind fst].
+  rewrite (sort_off_sorted _ 0).
+  2:{ rewrite map_snd_combine by (now rewrite soffs_length, map_length). apply soffs_inc. lia. }
+  assert (Hcl : lenN (combine (map e_tag es) (soffs es (2 + 6 * n))) = n).
+  { unfold lenN, n. now rewrite combine_length, map_length, soffs_length, Nat.min_id. }
+  rewrite Hcl.
+  assert (Hex : existsb (fun e : list N * N => snd e <? 2 + 6 * n) (combine (map e_tag es) (soffs es (2 + 6 * n))) = false).
+  { destruct (existsb _ _) eqn:E; [|reflexivity]. apply existsb_exists in E. destruct E as (x & Hx & Hlt).
+    assert (Hin : In (snd x) (soffs es (2 + 6 * n))).
+    { rewrite <- (map_snd_combine (map e_tag es) (soffs es (2 + 6 * n))) by (now rewrite soffs_length, map_length).
+      apply in_map. exact Hx. }
+    pose proof (proj1 (Forall_forall _ _) (soffs_ge es (2 + 6 * n)) _ Hin) as Hge. cbv beta in Hlt, Hge. lia. }
+  rewrite Hex.
+  assert (HD : pre ++ (n / 256) mod 256 :: n mod 256 ::
+               concat (map (fun p => fst p ++ be16 (snd p)) (combine (map e_tag es) (soffs es (2 + 6 * n)))) ++ tabs ++ post
+               = (pre ++ be16 n ++ recs) ++ tabs ++ post)
+    by (rewrite Hrecs, <- !app_assoc; reflexivity).
+  rewrite HD.
+  apply rd_script_tables_ok; try assumption.
+  - lens. rewrite Hrl. lia.
+  - lens. rewrite Hrl. lia.
+Qed.
+
+(* ---- the reader never panics ---- *)
+Lemma rd_tagged_np n : forall r, rd_tagged n r <> Panic.
+Proof.
+  induction n as [|n IH]; intros r; cbn [rd_tagged]; [discriminate|].
+  destruct r as [|a [|b [|c [|d [|e [|f r']]]]]]; try discriminate.
+  specialize (IH r'). destruct (rd_tagged n r'); cbn [obind]; congruence.
+Qed.
+
+Lemma rd_u16s_np n : forall r, rd_u16s n r <> Panic.
+Proof.
+  induction n as [|n IH]; intros r; cbn [rd_u16s]; [discriminate|].
+  destruct r as [|a [|b r']]; try discriminate.
+  specialize (IH r'). destruct (rd_u16s n r'); cbn [obind]; congruence.
+Qed.
+
+Lemma rd_langsys_np data p b : rd_langsys data p b <> Panic.
+Proof.
+  unfold rd_langsys. destruct (seek data p) as [|a [|b0 [|c [|d [|e [|f r]]]]]]; try discriminate.
+  destruct (negb _); [discriminate|]. destruct (_ <? _); [discriminate|].
+  pose proof (rd_u16s_np (N.to_nat (w16 e f)) r). destruct (rd_u16s _ r); cbn [obind]; congruence.
+Qed.
+
+Lemma rd_langsyss_np conv_ok data pos script recs : forall b, rd_langsyss conv_ok data pos script recs b <> Panic.
+Proof.
+  induction recs as [|[lang off] r IH]; intros b; cbn [rd_langsyss]; [discriminate|].
+  pose proof (rd_langsys_np data (pos + off) b). destruct (rd_langsys data (pos + off) b) as [x| | |]; cbn [obind]; try congruence.
+  specialize (IH (snd x)). destruct (rd_langsyss conv_ok data pos script r (snd x)); cbn [obind]; congruence.
+Qed.
+
+Lemma rd_script_table_np conv_ok data script pos b : rd_script_table conv_ok data script pos b <> Panic.
+Proof.
+  unfold rd_script_table. destruct (seek data pos) as [|a [|b0 [|c [|d r]]]]; try discriminate.
+  destruct (_ && _); [discriminate|]. destruct (_ <? _); [discriminate|].
+  pose proof (rd_tagged_np (N.to_nat (w16 c d)) r). destruct (rd_tagged _ r); cbn [obind]; try congruence.
+  apply rd_langsyss_np.
+Qed.
+
+Lemma rd_script_tables_np conv_ok data pos recs : forall b, rd_script_tables conv_ok data pos recs b <> Panic.
+Proof.
+  induction recs as [|[s off] r IH]; intros b; cbn [rd_script_tables]; [discriminate|].
+  pose proof (rd_script_table_np conv_ok data s (pos + off) b).
+  destruct (rd_script_table conv_ok data s (pos + off) b) as [x| | |]; cbn [obind]; try congruence.
+  specialize (IH (snd x)). destruct (rd_script_tables conv_ok data pos r (snd x)); cbn [obind]; congruence.
+Qed.
+
+Lemma sl_read_total conv_ok data pos : M_sl_read conv_ok data pos <> Panic.
+Proof.
+  unfold M_sl_read. destruct (seek data pos) as [|a [|b r]]; try discriminate.
+  destruct (_ <? _); [discriminate|].
+  pose proof (rd_tagged_np (N.to_nat (w16 a b)) r). destruct (rd_tagged _ r); cbn [obind]; try congruence.
+  destruct (existsb _ _); [discriminate|]. apply rd_script_tables_np.
 Qed.
